@@ -94,6 +94,46 @@ let () =
           spec = show_operand (eval s2 s3 so a1 b1 c1) ^ " | " ^ show_operand (eval s2 s3 so a2 b2 c2);
           dom = pos_all }
     | _ -> failwith "defer");
+  (* ---------- result element type per argument form (drivers/c07_cast.cpp) ---------- *)
+  let form_of = function
+    | "def" -> CastDefault | "auto" -> CastAuto | "same" -> CastSameKind | "equiv" -> CastEquiv | f -> failwith ("form " ^ f) in
+  let zop = function "add" -> Z.add | "subtract" -> Z.sub | "multiply" -> Z.mul | f -> failwith ("zop " ^ f) in
+  let typed_result rt f x y =
+    (* the element-wise / outer model on exact integers, every element converted into the result element type *)
+    match f x y with
+    | None -> None
+    | Some (d, e) -> Some (d, fun i -> int_cast rt (e i)) in
+  register "cast" (fun a -> match a with
+    | [fn; form; t; x; y] ->
+        let t = dtype_of (getS t) and form = getS form and op = zop (getS fn) in
+        let rt = binary_result_dtype (form_of form) Arith t t in
+        let x = operand_of x and y = operand_of y in
+        let tail = " ; view=" ^ dtype_name rt ^ (if form = "def" || form = "same" then " eval=" ^ dtype_name rt ^ " evalsame=1" else " eval=- evalsame=-") in
+        let pr = function None -> "nothing" | r -> show_operand r ^ tail in
+        { model = pr (typed_result rt (ufunc2 op) x y); spec = pr (typed_result rt (ufunc2_spec op) x y); dom = posb (fst x) && posb (fst y) }
+    | _ -> failwith "cast");
+  register "outerd" (fun a -> match a with
+    | [fn; t; d; x; y] ->
+        let t = dtype_of (getS t) and op = zop (getS fn) in
+        let form = (match getS d with "none" -> CastDefault | r -> CastDtype (dtype_of r)) in
+        let rt = binary_result_dtype form Arith t t in
+        let x = operand_of x and y = operand_of y in
+        let pr r = show_operand r ^ " ; view=" ^ dtype_name rt in
+        { model = pr (typed_result rt (fun a b -> Some (outer op a b)) x y); spec = pr (typed_result rt (fun a b -> Some (outer_spec op a b)) x y);
+          dom = posb (fst x) && posb (fst y) }
+    | _ -> failwith "outerd");
+  register "redt" (fun a -> match a with
+    | [_; _; t; d] ->
+        let t = dtype_of (getS t) in
+        let r = (match getS d with "none" -> None | r -> Some (dtype_of r)) in
+        both ("ok view=" ^ dtype_name (reduce_dtype r t)) true
+    | _ -> failwith "redt");
+  register "evalk" (fun a -> match a with
+    | [fn; _; _; x; y] ->
+        let x = operand_of x and y = operand_of y in
+        let f = (match getS fn with "add" -> Z.add | "lin" -> op2 "lin" | t -> failwith ("evalk " ^ t)) in
+        { model = show_operand (ufunc2 f x y); spec = show_operand (ufunc2_spec f x y); dom = posb (fst x) && posb (fst y) }
+    | _ -> failwith "evalk");
   register "ident" (fun _ -> { model = "ok"; spec = "ok"; dom = false });
   register "dtype" (fun a -> match a with
     | [op; t1; t2] ->
